@@ -154,8 +154,8 @@ Variable fsize : N.
 Hypothesis Hct : MAX_FLD_LENGTH <= cap_tag cp.
 Hypothesis Hcv : MAX_FLD_LENGTH <= cap_val cp.
 Variable bd : bool.     (* is the input assumed bounded? *)
-Hypothesis Hrun : bd = true -> run_ok MAX_FLD_LENGTH 0 from = true.
-Hypothesis Hfs : fsize <= lenN from.
+Hypothesis Hrun : bd = true -> run_ok MAX_FLD_LENGTH MAX_FLD_LENGTH 0 None from = true.
+Hypothesis Hfs : bd = true -> fsize <= lenN from.
 Variable nh : bool.
 
 Notation adv := (adv (lenN from)).
@@ -174,10 +174,11 @@ Proof.
   - left. exists t, v, r. split; [reflexivity|]. apply extract_element_ok in E. rewrite lenN_skipN in E. lia.
   - right. left. eauto.
   - right. right. destruct bd eqn:Eb; [|eauto]. exfalso. revert E.
-    apply (extract_element_safe MAX_FLD_LENGTH); try assumption.
+    apply (extract_element_safe MAX_FLD_LENGTH MAX_FLD_LENGTH); try assumption.
+    + reflexivity.
     + reflexivity.
     + apply run_ok_skip. exact (Hrun eq_refl).
-    + rewrite lenN_skipN. lia.
+    + rewrite lenN_skipN. pose proof (Hfs eq_refl). lia.
 Qed.
 
 Notation post_elem := (post_elem (lenN from)).
@@ -410,11 +411,11 @@ Proof.
   destruct (extract_element_fixed_width (skipN off2 from) (fsize - off2) (fast_atoi_u32 val) (cap_tag cp) (cap_val cp))
     as [tag2 val2 result2|t2 v2|s2] eqn:Efw.
   3:{ destruct bd eqn:Eb; [|rg; left; reflexivity].
-      exfalso. revert Efw. apply (extract_fw_safe MAX_FLD_LENGTH); try assumption.
+      exfalso. revert Efw. apply (extract_fw_safe MAX_FLD_LENGTH MAX_FLD_LENGTH); try assumption.
       - unfold MAX_FLD_LENGTH in *. lia.
       - reflexivity.
       - apply run_ok_skip. exact (Hrun eq_refl).
-      - rewrite lenN_skipN. lia. }
+      - rewrite lenN_skipN. pose proof (Hfs eq_refl). lia. }
   2:{ exact I. }
   destruct (cstr_known (tagbuf_after_fw tag2 (tagbuf_after tag tb))) as [tagstr|]; [|rg; right; auto].
   set (tv2 := fast_atoi_u16 tagstr).
